@@ -70,6 +70,7 @@ func main() {
 			_ = res.Trace.Save(*file)
 		}
 		fmt.Println(res.Sample)
+		_ = os.RemoveAll(fmt.Sprintf("/dev/shm/verif-%d", os.Getpid()))
 	case "selftest":
 		os.Exit(selftest(*seeds, *seed))
 	default:
